@@ -84,7 +84,7 @@ def check_text(case, stats, cov=None, buckets=None):
     if gh.names_existing_path(text):
         stats.label("excluded_known_F1")
         return
-    use_alarm = hasattr(signal, "setitimer")
+    use_alarm = False  # the runner's per-case watchdog (vlib.common.guarded) covers every check
     if use_alarm:
         try:
             old = signal.signal(signal.SIGALRM, _alarm)
@@ -328,7 +328,7 @@ def unit_atheris(a):
             if len(t) < 600:
                 open(os.path.join(corpus, "seed%d" % i), "w", encoding="utf8", newline="").write(t)
     cmd = [sys.executable, "-X", "utf8", os.path.join(VERIF, "tools", "fuzz_c01.py"), corpus, "-runs=%d" % a["runs"], "-seed=%d" % (a["seed"] + a["shard"] + 1),
-           "-max_len=400", "-artifact_prefix=" + out + "/", "-print_final_stats=1", "-verbosity=0"]
+           "-max_len=400", "-artifact_prefix=" + out + "/", "-print_final_stats=1", "-verbosity=0", "-rss_limit_mb=6000", "-timeout=300"]
     env = dict(os.environ, VERIF_FUZZ_MODE=a["mode"])
     r = subprocess.run(cmd, capture_output=True, text=True, cwd=os.getcwd(), env=env, timeout=3600)
     execs = 0
@@ -392,7 +392,7 @@ def run(ctx):
     ctx.units("histories-one-parser-one-stream", unit_histories, hu, procs=16)
     fz = []
     for i in range(8 if q else 16):
-        fz.append({"runs": 10000 if q else 150000, "seed": ctx.seed * 100, "shard": i, "mode": "structured" if i % 2 else "text", "seed_corpus": i % 4 >= 2})
+        fz.append({"runs": 6000 if q else 150000, "seed": ctx.seed * 100, "shard": i, "mode": "structured" if i % 2 else "text", "seed_corpus": i % 4 >= 2})
     ctx.units("atheris-coverage-guided", unit_atheris, fz, procs=16)
     st_ = ctx.subs.get("generated-texts")
     if st_ is not None:
